@@ -430,3 +430,18 @@ def shrink(case, still_fails, budget=60):
             except Exception:
                 continue
     return cur
+
+
+def interleave_blocks(rng, blocks, max_chunk=3):
+    """[(label, rows)] -> one matrix with a leading label column in which the episodes' rows are interleaved in chunks of
+    random length (each episode keeps its own time order; the episodes are NOT contiguous)"""
+    cursors = {l: 0 for l, _ in blocks}
+    data = dict(blocks)
+    rows = []
+    while any(cursors[l] < data[l].shape[0] for l in cursors):
+        l = rng.choice([l for l in cursors if cursors[l] < data[l].shape[0]])
+        k = rng.randint(1, max_chunk)
+        for r in data[l][cursors[l]:cursors[l] + k]:
+            rows.append(np.concatenate(([l], r)))
+        cursors[l] += k
+    return np.array(rows)
